@@ -149,7 +149,7 @@ def main():
         ],
         'checks': [],
         'not_applicable': [],
-        'notes': 'Model-based verification with explicit TLA+ specifications (spec/), TLC, and a conformance harness (harness/). See DESIGN.md. Genuine defects found and repaired: see known_findings.json.',
+        'notes': 'Model-based verification with explicit TLA+ specifications (spec/), TLC, and a conformance harness (harness/). See DESIGN.md. Genuine defects found: see known_findings.json (11 repaired by fix: commits, 1 open known finding F12 reported by ./check C07 as KNOWN-FINDING).',
     }
     for p in ALL:
         if p in CHECKS:
